@@ -41,6 +41,11 @@ def join_stmts(nkeys):
             S('SELECT l.p, r.q FROM l %s JOIN r ON %s WHERE %s IN (SELECT x.%s FROM %s x WHERE x.%s >= 1)' % (jt, on, col, c, tab, c), '%s+semi-in-%s' % (jt, side), strict=False)
             S('SELECT l.p, r.q FROM l %s JOIN r ON %s WHERE EXISTS (SELECT 1 FROM %s x WHERE x.%s = %s)' % (jt, on, tab, c, col), '%s+semi-exists-%s' % (jt, side), strict=False)
             S('SELECT l.p, r.q FROM l %s JOIN r ON %s WHERE NOT EXISTS (SELECT 1 FROM %s x WHERE x.%s = %s)' % (jt, on, tab, c, col), '%s+anti-notexists-%s' % (jt, side), strict=False)
+    # USING: the named columns equated pairwise, one from each side
+    using = ', '.join('k%d' % i for i in range(nkeys))
+    for jt in ('INNER', 'LEFT', 'RIGHT', 'FULL'):
+        S('SELECT l.p, r.q FROM l %s JOIN r USING (%s)' % (jt, using), jt + '+using', strict=False)
+        S('SELECT x.p, y.q FROM l x %s JOIN r y USING (%s) WHERE y.q >= 1 OR x.p >= 1' % (jt, using), jt + '+using-aliased', strict=False)
     S('SELECT l.p, r.q FROM l CROSS JOIN r', 'CROSS')
     S('SELECT l.p, r.q FROM l, r WHERE %s' % on, 'comma-inner')
     for res in ('', ' AND l.p < r.q', ' AND r.q <> 1'):
@@ -134,7 +139,7 @@ def run(rep):
             for c in range(0, len(big_st), h):
                 big_units.append({'db': db, 'stmts': big_st[c:c + h]})
     rep.rule = ('all pairs of tables with <= %d rows over key tuples (typings %s; values NULL + 2) and unique payloads; INNER/LEFT/RIGHT/FULL with residual ON predicates and WHERE placement (predicates over both sides, over the left side only and over the right side only, NULL tests included; IN / EXISTS / NOT EXISTS above the join keyed on either side), '
-                'CROSS, comma join, EXISTS / NOT EXISTS / IN, joins against an aggregate subquery; memory and Parquet on either side; plus a 40-row side against every 1- and 2-row side in both orientations and four storage layouts (build-side choice, runtime key filter); plus generated tables of 1,200 / 10,500 (quick) and 100,100 (thorough) rows on either side with NULL and ~100x duplicated keys (the probe-size and build-size gates), memory in 1 and 40 batches and Parquet; oracle SQLite 3.40; Execution errors are violations; '
+                'USING, CROSS, comma join, EXISTS / NOT EXISTS / IN, joins against an aggregate subquery; memory and Parquet on either side; plus a 40-row side against every 1- and 2-row side in both orientations and four storage layouts (build-side choice, runtime key filter); plus generated tables of 1,200 / 10,500 (quick) and 100,100 (thorough) rows on either side with NULL and ~100x duplicated keys (the probe-size and build-size gates), memory in 1 and 40 batches and Parquet; oracle SQLite 3.40; Execution errors are violations; '
                 'non-trivial = reference answer non-empty' % (maxrows, typings))
     sqldiff.run(rep, big_units + units)      # the heavy units first: they would otherwise be the tail of the run
 
